@@ -37,6 +37,9 @@ RULE = ("HDDDM with 1-4 features (Hellinger or a user divergence) and CDBD with 
         "Non-trivial: at least one drift and at least one update after it; distinct by content.")
 SHARD = 6
 
+RUN = {"drifts": 0, "updates": 0, "exact_ties_eps_eq_beta": 0, "near_ties_1e-12": 0, "pow_exceptions": 0, "proxy_batches": 0,
+       "degenerate_ranges": 0, "rejected_set_reference": 0, "bootstrap_estimates_validated": 0, "thresholds": 0,
+       "side_identity": 0, "side_symmetry": 0, "side_symmetry_bit_exact": 0}
 getcontext().prec = 60
 SQRT2 = math.sqrt(2.0)
 SQRTLN2 = math.sqrt(math.log(2.0))
@@ -337,6 +340,7 @@ def direct_check(case, obs):
         """one pass of update() proper; cobs = the logged divergence calls of this pass"""
         nonlocal ref, ref_n, bins, eps, prev, prev_fd, total, since, ds, lam, feps, finfo, cur, beta_attr, segs
         total += 1; since += 1
+        RUN["updates"] += 1; RUN["proxy_batches"] += 1 if proxy else 0
         where = f"step {step}{' (proxy batch)' if proxy else ''}"
         if len(cobs) != k:
             return [f"{where}: {len(cobs)} divergence evaluations for {k} features"]
@@ -344,6 +348,7 @@ def direct_check(case, obs):
         fds = []
         for f in range(k):
             rh, th, e1, e2 = exp[f]
+            RUN["degenerate_ranges"] += 1 if float(np.concatenate((ref[:, f], X[:, f])).min()) == float(np.concatenate((ref[:, f], X[:, f])).max()) else 0
             if e1 != e2:
                 return [f"{where}: feature {f}: reference and test histograms are built on different edges"]
             if len(rh) != bins or bins != math.isqrt(ref_n):
@@ -384,6 +389,7 @@ def direct_check(case, obs):
                 bex = boot_expected(case, ref, ref_n, bins, bmins, bmaxs, step, divf)
                 if not close(boot, bex, TOL_BOOT):
                     return [f"{where}: bootstrap estimate {boot!r}, independent recomputation under the same seed {float(bex)!r}"]
+                RUN["bootstrap_estimates_validated"] += 1
                 eps.append(boot)
             ce = float(abs(np.float64(c) - np.float64(prev)) * 1.0)
             eps.append(ce)
@@ -418,7 +424,11 @@ def direct_check(case, obs):
                 thr[total] = b
                 beta_attr = b
                 drift = ce > b
+                RUN["thresholds"] += 1
+                RUN["exact_ties_eps_eq_beta"] += 1 if ce == b else 0
+                RUN["near_ties_1e-12"] += 1 if ce != b and abs(ce - b) <= 1e-12 * (1 + abs(b)) else 0
         if drift:
+            RUN["drifts"] += 1
             if k > 1:
                 m = max(feps)
                 finfo = [list(feps), list(fds), feps.index(m)]
@@ -450,7 +460,7 @@ def direct_check(case, obs):
         if kind == 1 and db == 1 and len(X) < 3:
             if row["err"] is None:
                 return [f"{where}: set_reference accepted a {len(X)}-row reference with detect_batch=1"]
-            cores_expected = 0
+            RUN["rejected_set_reference"] += 1
         else:
             if row["err"] is not None:
                 return [f"{where}: unexpected ValueError: {row['err']}"]
@@ -508,8 +518,12 @@ def direct_check(case, obs):
     for s in obs.get("side", []):
         if not (abs(s["same"]) <= 1e-12):
             return [f"distance of batch {s['a']} to an identical reference is {s['same']!r}, not 0"]
-        if "ab" in s and not (abs(s["ab"] - s["ba"]) <= sym_tol * (1 + abs(s["ab"]))):
-            return [f"distance not symmetric for equal sizes: d(ref={s['a']}, test={s['b']}) = {s['ab']!r}, swapped {s['ba']!r}"]
+        RUN["side_identity"] += 1
+        if "ab" in s:
+            if not (abs(s["ab"] - s["ba"]) <= sym_tol * (1 + abs(s["ab"]))):
+                return [f"distance not symmetric for equal sizes: d(ref={s['a']}, test={s['b']}) = {s['ab']!r}, swapped {s['ba']!r}"]
+            RUN["side_symmetry"] += 1
+            RUN["side_symmetry_bit_exact"] += 1 if feq(s["ab"], s["ba"]) else 0
     return []
 
 
@@ -601,7 +615,11 @@ def coq_term(case, obs):
     mode = 0 if p["divergence"] == "H" else 1
     sqt, dt, tt = {}, {}, {}
     ops, exps = [], []
+    B = [np.array(b, dtype=float).reshape(len(b), k) for b in case["batches"]]
     for (kind, bi), row, segs in zip(case["ops"], obs["rows"], allsegs):
+        content = np.concatenate([B[i][a:z] for i, a, z in segs]) if segs else np.zeros((0, k))
+        if row["ref_sha"] != sha(content) or row["ref_shape"] != [len(content), k]:
+            return "false"          # the reference is not made of these slices of the inputs: the model cannot reproduce it
         boot = 0.0
         if kind == 0 and row["since"] == 2 and db != 3 and row["epsl"]:
             boot = row["epsl"][0]
@@ -634,6 +652,7 @@ def coq_term(case, obs):
             optFL(row["feps"]), finfo, kvs(row["dists"] or []), kvs(row["epsv"] or []), kvs(row["thr"] or []),
             "None" if hists is None else f"(Some {hists})",
             G.lst([f"({a}, {b}, {c})" for a, b, c in segs]), optF(row["prev"])]))
+    RUN["pow_exceptions"] += len(sqt)
     for x, v in sqt.items():
         if not (abs(v - x * x) <= math.ulp(x * x)):
             return "false"
@@ -817,7 +836,7 @@ def two_pass(case):
 
 def gen_cases(ctx):
     cases = []
-    n = ctx.scale(110, 1500)
+    n = ctx.scale(170, 1500)
     for i in range(n):
         cases.append(gen_one(ctx, i))
     # two-pass boundary cases
@@ -850,7 +869,7 @@ def gen_hist_cases(ctx):
     """np.histogram alone against Hist.v: points on edges and next to them, degenerate ranges, extreme scales, partial ranges"""
     rng = ctx.rng
     out = []
-    for i in range(ctx.scale(250, 4000)):
+    for i in range(ctx.scale(400, 4000)):
         n = rng.choice([1, 2, 3, 4, 5, 7, 10, 16, 31])
         m = rng.randint(1, 40)
         style = rng.random()
@@ -874,4 +893,28 @@ def gen_hist_cases(ctx):
         if not (lo <= hi):
             continue
         out.append({"hist": True, "xs": xs, "n": n, "lo": lo, "hi": hi})
+    return out
+
+
+def extra(ctx):
+    """what the generated histories actually reached (counted by the direct check while it ran)"""
+    return {"reached": dict(RUN)}
+
+
+def two_row_drift_witness():
+    """Open finding HDM-proxy-rows-drift (recorded under C14), seen through this property: with detect_batch=1 a drift
+    reported on a 2-row batch makes the next update raise from reset() (the proxy half has one row), leaves the reference
+    truncated to 1 row with batches_since_reset = 0, and the batch of the failing call is lost.  Not generated by
+    gen_cases (batches on which detect_batch=1 may drift have >= 3 rows); returns the observed behaviour."""
+    np.random.seed(0)
+    d = HDDDM(detect_batch=1, statistic="stdev", significance=0.0, subsets=2)
+    d.set_reference(np.array([[0.], [1.], [2.], [3.]]))
+    d.update(np.array([[10.], [11.]]))
+    out = {"after_drift": [d.drift_state, int(d.total_batches), int(d.batches_since_reset)]}
+    try:
+        d.update(np.array([[10.], [11.], [12.]]))
+        out["next_update"] = "accepted"
+    except ValueError as e:
+        out["next_update"] = "ValueError: " + str(e)
+    out["then"] = [d.drift_state, int(d.total_batches), int(d.batches_since_reset), int(d.reference_n), len(d.reference)]
     return out
